@@ -152,6 +152,40 @@ def c19_1(ctx: Ctx) -> RuleResult:
                     res.add(m, asg, "the plug-in name used as registry key is lower-cased", ok,
                             "" if ok else f"key `{show(kt, 60)}` is used with its original case: names differing in case do not find / do not collide with each other",
                             construct=f"{m.name}: key {show(kt, 40)} of the stored dict")
+    # module-level private helpers that are handed a per-type registry (`_lookup_named_plugin(self._plugins[t], name, m)`):
+    # the same key uses, with the parameter standing for the sub-registry
+    from ..callgraph import bind_args as _bind
+
+    helpers: dict = {}
+    for m in c.methods.values():
+        for call_, cs, _k in ctx.cg.all_callees(m):
+            for g in cs:
+                if g.cls is None and g.outer is None and g.module is c.module and not isinstance(g.node, ast.Lambda):
+                    ct_ = X.at(m, call_)
+                    if ct_[0] != "call":
+                        continue
+                    for pn_, at_ in _bind(g, ct_, False).items():
+                        if at_ is not None and _term_is_subreg(at_, reg):
+                            helpers.setdefault(g.qualname, (g, set()))[1].add(pn_)
+    for g, sub_ps in helpers.values():
+        def is_sub_param(e_, g=g, sub_ps=sub_ps):
+            return isinstance(e_, ast.Name) and e_.id in sub_ps and X.at(g, e_) == ("param", g.qualname, e_.id)
+
+        for node in nodes_in(g, (ast.Subscript, ast.Call, ast.Compare)):
+            keys = []
+            if isinstance(node, ast.Subscript) and is_sub_param(node.value):
+                keys.append(node.slice)
+            elif isinstance(node, ast.Call) and isinstance(node.func, ast.Attribute) and node.func.attr in ("get", "pop", "setdefault") and node.args and is_sub_param(node.func.value):
+                keys.append(node.args[0])
+            elif isinstance(node, ast.Compare) and len(node.ops) == 1 and isinstance(node.ops[0], (ast.In, ast.NotIn)) and is_sub_param(node.comparators[0]):
+                keys.append(node.left)
+            for k in keys:
+                n_keys += 1
+                t = X.at(g, k)
+                ok = _is_lowered(ctx, t)
+                res.add(g, k, "the plug-in name used as registry key is lower-cased", ok,
+                        "" if ok else f"key `{show(t, 60)}` is used with its original case: names differing in case do not find / do not collide with each other",
+                        construct=f"{g.name}: key {ast.unparse(k)[:40]}")
     # is_supported implementations
     for f in ctx.repo.implementations("ropt.plugins.base.Plugin", "is_supported"):
         rt = X.return_term(f)
@@ -343,7 +377,25 @@ def c19_2(ctx: Ctx) -> RuleResult:
                         if key not in seen_sites:
                             seen_sites.add(key)
                             disc_sites.append((f_, r_, a, lits))
+    # the same lookup seen twice - in a module-level helper and again, through the helper's value, at the return of
+    # get_plugin that hands the helper's result on: one site (the helper's own, whose conditions are the direct ones)
+    def _dedupe(sites):
+        by_term: dict = {}
+        for site in sites:
+            by_term.setdefault(_norm(site[2]), []).append(site)
+        out_ = []
+        for group in by_term.values():
+            own = [s_ for s_ in group if s_[0] is not get]
+            out_.append(own[0] if own and len(group) > 1 and any(s_[0] is get for s_ in group) else group[0])
+            if not (own and len(group) > 1 and any(s_[0] is get for s_ in group)):
+                out_.extend(group[1:])
+        return out_
+
+    explicit_sites, disc_sites = _dedupe(explicit_sites), _dedupe(disc_sites)
     explicit_ok = len(explicit_sites) == 1
+    import os as _os
+    if _os.environ.get("C19_DEBUG"):
+        print("SITES", len(explicit_sites), len(disc_sites))
     if explicit_ok:
         f_, r_, rv0, lits = explicit_sites[0]
         rv = _norm(rv0)
@@ -351,6 +403,9 @@ def c19_2(ctx: Ctx) -> RuleResult:
         sup_ok = any(p and a[0] == "call" and a[1] == ("attr", rv, "is_supported") for a, p in lits)
         key_ok = bool(rv0[2]) and _is_lowered(ctx, rv0[2][0])
         explicit_ok = truthy and sup_ok and key_ok
+        import os as _os
+        if _os.environ.get("C19_DEBUG"):
+            print("EXPL", truthy, sup_ok, key_ok, show(rv, 80), [(show(a, 60), p) for a, p in lits])
     disc_ok = len(disc_sites) == 1
     if disc_ok:
         f_, r_, rv0, lits = disc_sites[0]
